@@ -158,7 +158,7 @@ Proof.
   destruct (leaf_queries _ _ _ Hf) as (Hl1 & Hl2 & _). destruct (root_queries _ _ G Hp) as (Hq1 & Hq2 & _ & _).
   rewrite Hl1, Hq1, Hq2. cbn [opt_eqb].
   assert (remove_consolidate st None None = (st, false)) as -> by (unfold remove_consolidate; destruct (negb (cons st)); reflexivity).
-  rewrite Hl2.
+  rewrite !Hl2. cbn [opt_eqb]. cbv zeta.
   assert (add_consolidate st n None None = (st, false)) as ->.
   { unfold add_consolidate. destruct (negb (cons st)); [reflexivity|]. destruct (val st n) as [[]|]; reflexivity. }
   reflexivity.
